@@ -15,7 +15,10 @@ use zerokit_utils::ZerokitMerkleTree;
 
 pub struct C16;
 
-const DEPTH: usize = 3;
+/// positions compared after reopen: all of them for small trees, a boundary alphabet for depth 20
+fn obs_positions(depth: usize) -> Vec<u64> {
+    if depth <= 4 { (0..(1u64 << depth)).collect() } else { let c = 1u64 << depth; vec![0, 1, 2, 3, 4, 5, 6, 7, 255, 256, c / 2 - 1, c / 2, c / 2 + 1, c - 2, c - 1] }
+}
 
 #[derive(Clone, Debug, PartialEq, Eq)]
 pub enum Op {
@@ -70,6 +73,7 @@ pub struct Cfg {
     pub flush_ms: Option<u64>,
     pub mode: &'static str,
     pub compression: bool,
+    pub depth: usize,
 }
 impl Cfg {
     fn json(&self, path: &PathBuf) -> String {
@@ -79,16 +83,16 @@ impl Cfg {
         format!("cache={:?},flush_ms={:?},mode={},compression={}", self.cache, self.flush_ms, self.mode, self.compression)
     }
     fn default_cfg() -> Cfg {
-        Cfg { cache: Some(1 << 20), flush_ms: None, mode: "HighThroughput", compression: false }
+        Cfg { cache: Some(1 << 20), flush_ms: None, mode: "HighThroughput", compression: false, depth: 3 }
     }
 }
 fn cfg_from(v: &Value) -> Cfg {
-    Cfg { cache: v["cache"].as_u64(), flush_ms: v["flush_ms"].as_u64(), mode: if v["mode"] == "LowSpace" { "LowSpace" } else { "HighThroughput" }, compression: v["compression"].as_bool().unwrap_or(false) }
+    Cfg { cache: v["cache"].as_u64(), flush_ms: v["flush_ms"].as_u64(), mode: if v["mode"] == "LowSpace" { "LowSpace" } else { "HighThroughput" }, compression: v["compression"].as_bool().unwrap_or(false), depth: v["depth"].as_u64().unwrap_or(3) as usize }
 }
 
 fn open(path: &PathBuf, cfg: &Cfg) -> Result<PmTree, String> {
     let c = PmtreeConfig::from_str(&cfg.json(path)).map_err(|e| e.to_string())?;
-    PmTree::new(DEPTH, Fr::from(0u64), c).map_err(|e| e.to_string())
+    PmTree::new(cfg.depth, Fr::from(0u64), c).map_err(|e| e.to_string())
 }
 
 #[derive(Clone, Debug, PartialEq, Eq)]
@@ -126,10 +130,10 @@ struct Snapshot {
     hwm: u64,
     meta: Vec<u8>,
 }
-fn observe(t: &PmTree) -> Result<Snapshot, String> {
+fn observe(t: &PmTree, depth: usize) -> Result<Snapshot, String> {
     guard(|| Snapshot {
         root: from_fr(&t.root()),
-        leaves: (0..(1usize << DEPTH)).map(|i| t.get(i).map(|f| from_fr(&f)).unwrap_or_else(|_| pow2(255))).collect(),
+        leaves: obs_positions(depth).iter().map(|i| t.get(*i as usize).map(|f| from_fr(&f)).unwrap_or_else(|_| pow2(255))).collect(),
         hwm: t.leaves_set() as u64,
         meta: t.metadata().unwrap_or_else(|_| b"<error>".to_vec()),
     })
@@ -156,7 +160,7 @@ impl Model {
 }
 
 fn case_json(kind: &str, hist: &[Op], cfg: &Cfg, k: Option<u64>) -> Value {
-    json!({"kind": kind, "history": hist.iter().map(|o| o.to_json()).collect::<Vec<_>>(), "cfg": {"cache": cfg.cache, "flush_ms": cfg.flush_ms, "mode": cfg.mode, "compression": cfg.compression}, "k": k})
+    json!({"kind": kind, "history": hist.iter().map(|o| o.to_json()).collect::<Vec<_>>(), "cfg": {"cache": cfg.cache, "flush_ms": cfg.flush_ms, "mode": cfg.mode, "compression": cfg.compression, "depth": cfg.depth}, "k": k})
 }
 
 impl C16 {
@@ -169,7 +173,7 @@ impl C16 {
         let res = (|| -> Result<(), String> {
             fault::disarm();
             let mut t = open(&path, cfg)?;
-            let mut m = Model { tree: IdealTree::new(DEPTH), meta: vec![] };
+            let mut m = Model { tree: IdealTree::new(cfg.depth), meta: vec![] };
             for op in hist {
                 match apply(&mut t, op) {
                     R::Ok => m.step(op),
@@ -181,15 +185,15 @@ impl C16 {
                 return Err("final flush failed without an injected fault".into());
             }
             ops_seen = fault::ops();
-            let before = observe(&t)?;
+            let before = observe(&t, cfg.depth)?;
             drop(t);
             let t2 = open(&path, cfg).map_err(|e| format!("reopen failed: {e}"))?;
-            let after = observe(&t2)?;
+            let after = observe(&t2, cfg.depth)?;
             let key = |s: &str| format!("C16/reopen/{s}");
             if after.root != before.root || after.root != m.tree.root() {
                 out.push(Discrepancy { key: key("root-differs"), case: case.clone(), detail: format!("root before close {}, after reopen {}, ideal {}", before.root, after.root, m.tree.root()) });
             }
-            let want: Vec<BigUint> = (0..(1u64 << DEPTH)).map(|i| m.tree.leaf(i)).collect();
+            let want: Vec<BigUint> = obs_positions(cfg.depth).iter().map(|i| m.tree.leaf(*i)).collect();
             if after.leaves != want {
                 out.push(Discrepancy { key: key("leaves-differ"), case: case.clone(), detail: format!("leaves after reopen {:?}, acknowledged {:?}", after.leaves, want) });
             }
@@ -210,8 +214,8 @@ impl C16 {
                     (R::Panic(p), _) => out.push(Discrepancy { key: key("panic-after-reopen"), case: case.clone(), detail: format!("{}: {p}", op.to_json()) }),
                     _ => out.push(Discrepancy { key: key("wrong-result-after-reopen"), case: case.clone(), detail: format!("{} returned {:?}", op.to_json(), r) }),
                 }
-                let o = observe(&t2)?;
-                let want: Vec<BigUint> = (0..(1u64 << DEPTH)).map(|i| m.tree.leaf(i)).collect();
+                let o = observe(&t2, cfg.depth)?;
+                let want: Vec<BigUint> = obs_positions(cfg.depth).iter().map(|i| m.tree.leaf(*i)).collect();
                 if o.root != m.tree.root() || o.leaves != want || o.hwm != m.tree.hwm {
                     out.push(Discrepancy { key: key("diverges-after-reopen"), case: case.clone(), detail: format!("after {} on the reopened tree: root/leaves/leaf count differ from the ideal tree", op.to_json()) });
                     break;
@@ -234,7 +238,7 @@ impl C16 {
         let res = (|| -> Result<(), String> {
             fault::disarm();
             let mut t = open(&path, cfg)?;
-            let mut m = Model { tree: IdealTree::new(DEPTH), meta: vec![] };
+            let mut m = Model { tree: IdealTree::new(cfg.depth), meta: vec![] };
             fault::arm(k, fault::MODE_ERROR_ONCE);
             // positions / metadata whose value is not determined after the failed operation
             let mut failed_targets: Vec<u64> = vec![];
@@ -292,21 +296,21 @@ impl C16 {
             if apply(&mut t, &Op::Flush) != R::Ok {
                 return Err("flush after the failed operation failed although no fault is armed".into());
             }
-            let before_close = observe(&t)?;
+            let before_close = observe(&t, cfg.depth)?;
             drop(t);
             let t2 = match guard(|| open(&path, cfg)) {
                 Ok(Ok(t)) => t,
                 Ok(Err(e)) => { out.push(Discrepancy { key: "C16/fault/reopen-fails".into(), case: case.clone(), detail: e }); return Ok(()); }
                 Err(p) => { out.push(Discrepancy { key: "C16/fault/reopen-panics".into(), case: case.clone(), detail: p }); return Ok(()); }
             };
-            let after = observe(&t2)?;
+            let after = observe(&t2, cfg.depth)?;
             let fop = opname(&hist[fired_at.unwrap()]);
-            for i in 0..(1u64 << DEPTH) {
+            for (k, i) in obs_positions(cfg.depth).iter().cloned().enumerate() {
                 if failed_targets.contains(&i) {
                     continue;
                 }
-                if after.leaves[i as usize] != m.tree.leaf(i) {
-                    out.push(Discrepancy { key: format!("C16/fault/{fop}/acknowledged-update-lost"), case: case.clone(), detail: format!("position {i}: acknowledged value {} but {} after reopen (fault during {})", m.tree.leaf(i), after.leaves[i as usize], hist[fired_at.unwrap()].to_json()) });
+                if after.leaves[k] != m.tree.leaf(i) {
+                    out.push(Discrepancy { key: format!("C16/fault/{fop}/acknowledged-update-lost"), case: case.clone(), detail: format!("position {i}: acknowledged value {} but {} after reopen (fault during {})", m.tree.leaf(i), after.leaves[k], hist[fired_at.unwrap()].to_json()) });
                     break;
                 }
             }
@@ -348,7 +352,7 @@ impl C16 {
         let res = (|| -> Result<(), String> {
             fault::disarm();
             let mut t = open(&path, cfg)?;
-            let mut m = Model { tree: IdealTree::new(DEPTH), meta: vec![] };
+            let mut m = Model { tree: IdealTree::new(cfg.depth), meta: vec![] };
             for op in hist {
                 if apply(&mut t, op) == R::Ok {
                     m.step(op);
@@ -370,8 +374,8 @@ impl C16 {
                 Ok(Err(e)) => { out.push(Discrepancy { key: "C16/locked-reopen/open-fails".into(), case: case.clone(), detail: e }); return Ok(()); }
                 Err(p) => { out.push(Discrepancy { key: "C16/locked-reopen/panic".into(), case: case.clone(), detail: p }); return Ok(()); }
             };
-            let after = observe(&t2)?;
-            let want: Vec<BigUint> = (0..(1u64 << DEPTH)).map(|i| m.tree.leaf(i)).collect();
+            let after = observe(&t2, cfg.depth)?;
+            let want: Vec<BigUint> = obs_positions(cfg.depth).iter().map(|i| m.tree.leaf(*i)).collect();
             if after.root != m.tree.root() || after.leaves != want || after.hwm != m.tree.hwm || after.meta != m.meta {
                 out.push(Discrepancy { key: "C16/locked-reopen/state-lost".into(), case: case.clone(), detail: format!("the tree was opened while the previous instance held the storage lock for {hold_ms} ms: leaves {:?} (acknowledged {:?}), leaf count {} (acknowledged {})", after.leaves, want, after.hwm, m.tree.hwm) });
             }
@@ -421,7 +425,7 @@ impl C16 {
         let acked: Vec<usize> = std::fs::read_to_string(&ack).unwrap_or_default().lines().filter_map(|l| l.trim().parse().ok()).collect();
         let _ = std::fs::remove_file(&ack);
         let last_flush = acked.iter().cloned().filter(|i| hist.get(*i) == Some(&Op::Flush)).max();
-        let mut m = Model { tree: IdealTree::new(DEPTH), meta: vec![] };
+        let mut m = Model { tree: IdealTree::new(cfg.depth), meta: vec![] };
         let mut excluded: Vec<u64> = vec![];
         let mut meta_touched = false;
         if let Some(f) = last_flush {
@@ -450,10 +454,10 @@ impl C16 {
             Ok(Err(e)) => out.push(Discrepancy { key: "C16/crash/reopen-fails".into(), case: case.clone(), detail: format!("child exit {:?}: {e}", st.code()) }),
             Ok(Ok(t)) => {
                 if last_flush.is_some() {
-                    let after = observe(&t)?;
-                    for i in 0..(1u64 << DEPTH) {
-                        if !excluded.contains(&i) && after.leaves[i as usize] != m.tree.leaf(i) {
-                            out.push(Discrepancy { key: "C16/crash/flushed-update-lost".into(), case: case.clone(), detail: format!("position {i}: {} was acknowledged and flushed before the crash, {} after recovery (acknowledged operations {:?}, crash at storage operation {k})", m.tree.leaf(i), after.leaves[i as usize], acked) });
+                    let after = observe(&t, cfg.depth)?;
+                    for (k, i) in obs_positions(cfg.depth).iter().cloned().enumerate() {
+                        if !excluded.contains(&i) && after.leaves[k] != m.tree.leaf(i) {
+                            out.push(Discrepancy { key: "C16/crash/flushed-update-lost".into(), case: case.clone(), detail: format!("position {i}: {} was acknowledged and flushed before the crash, {} after recovery (acknowledged operations {:?}, crash at storage operation {k})", m.tree.leaf(i), after.leaves[k], acked) });
                             break;
                         }
                     }
@@ -480,8 +484,8 @@ impl C16 {
         let path = scratch_dir("c16r");
         let conf = json!({"tree_config": serde_json::from_str::<Value>(&cfg.json(&path)).unwrap()}).to_string();
         let r = guard(|| -> Result<(), String> {
-            let mut rln = RLN::new(DEPTH, Cursor::new(conf.clone())).map_err(|e| e.to_string())?;
-            let mut m = Model { tree: IdealTree::new(DEPTH), meta: vec![] };
+            let mut rln = RLN::new(cfg.depth, Cursor::new(conf.clone())).map_err(|e| e.to_string())?;
+            let mut m = Model { tree: IdealTree::new(cfg.depth), meta: vec![] };
             for op in hist {
                 let ok = match op {
                     Op::T(TreeOp::Set(i, v)) => rln.set_leaf(*i as usize, Cursor::new(codec::fr(&val(*v)))).is_ok(),
@@ -498,14 +502,14 @@ impl C16 {
             }
             rln.flush().map_err(|e| e.to_string())?;
             drop(rln);
-            let mut rln = RLN::new(DEPTH, Cursor::new(conf.clone())).map_err(|e| format!("RLN::new on the existing location failed: {e}"))?;
+            let mut rln = RLN::new(cfg.depth, Cursor::new(conf.clone())).map_err(|e| format!("RLN::new on the existing location failed: {e}"))?;
             let mut b = Cursor::new(Vec::<u8>::new());
             rln.get_root(&mut b).map_err(|e| e.to_string())?;
             let mut bad = vec![];
             if b.get_ref()[..] != codec::fr(&m.tree.root())[..] {
                 bad.push("root");
             }
-            for i in 0..(1u64 << DEPTH) {
+            for (k, i) in obs_positions(cfg.depth).iter().cloned().enumerate() {
                 let mut b = Cursor::new(Vec::<u8>::new());
                 rln.get_leaf(i as usize, &mut b).map_err(|e| e.to_string())?;
                 if b.get_ref()[..] != codec::fr(&m.tree.leaf(i))[..] {
@@ -550,13 +554,28 @@ fn opname(op: &Op) -> &'static str {
 }
 
 fn histories(len: usize) -> Vec<Vec<Op>> {
-    let a = alphabet();
+    histories_over(&alphabet(), len)
+}
+fn alphabet20() -> Vec<Op> {
+    vec![
+        Op::T(TreeOp::Set(0, 1)),
+        Op::T(TreeOp::Set(1 << 19, 2)),
+        Op::T(TreeOp::Set((1 << 20) - 1, 1)),
+        Op::T(TreeOp::Delete(0)),
+        Op::T(TreeOp::Append(1)),
+        Op::T(TreeOp::Range(2, vec![1, 2])),
+        Op::T(TreeOp::Batch(0, vec![], vec![0, 2])),
+        Op::Meta(b"m".to_vec()),
+        Op::Flush,
+    ]
+}
+fn histories_over(a: &[Op], len: usize) -> Vec<Vec<Op>> {
     let mut out: Vec<Vec<Op>> = vec![vec![]];
     let mut cur: Vec<Vec<Op>> = vec![vec![]];
     for _ in 0..len {
         let mut next = vec![];
         for h in &cur {
-            for op in &a {
+            for op in a {
                 let mut n = h.clone();
                 n.push(op.clone());
                 next.push(n);
@@ -603,7 +622,7 @@ impl Prop for C16 {
         for cache in [Some(1u64 << 20), None, Some(1u64 << 12), Some(150_000)] {
             for fl in [None, Some(50u64), Some(1)] {
                 for mode in ["HighThroughput", "LowSpace"] {
-                    cfgs.push(Cfg { cache, flush_ms: fl, mode, compression: false });
+                    cfgs.push(Cfg { cache, flush_ms: fl, mode, compression: false, depth: 3 });
                 }
             }
         }
@@ -644,6 +663,30 @@ impl Prop for C16 {
         for k in 0..wcreate {
             findings.report_all(self.creation_fault(&base, k));
             ncreate += 1;
+        }
+        // depth 20 (as deployed): shorter histories over positions across the tree; every operation performs about
+        // twenty storage writes, each of which is a fault position
+        let base20 = Cfg { depth: 20, ..Cfg::default_cfg() };
+        let hs20 = histories_over(&alphabet20(), if q { 1 } else { 2 });
+        let r20 = par_map(&hs20, ncpu(), |_, h| self.reopen(h, &base20));
+        let w20create = { let p = scratch_dir("c16w"); fault::disarm(); let t = open(&p, &base20); let w = fault::ops(); drop(t); let _ = std::fs::remove_dir_all(&p); w };
+        let mut f20items: Vec<(usize, u64)> = vec![];
+        for (i, (o, w)) in r20.into_iter().enumerate() {
+            findings.report_all(o);
+            if hs20[i].is_empty() {
+                continue;
+            }
+            for k in 0..w.saturating_sub(w20create) {
+                f20items.push((i, k));
+            }
+        }
+        let rf20 = par_map(&f20items, ncpu(), |_, (i, k)| {
+            let mut h = hs20[*i].clone();
+            h.push(Op::Flush);
+            self.faulted(&h, &base20, *k)
+        });
+        for o in rf20 {
+            findings.report_all(o);
         }
         // RLN-level reopen
         let rl: Vec<&Vec<Op>> = hs.iter().filter(|h| !h.iter().any(|o| matches!(o, Op::T(TreeOp::Batch(..))))).step_by(if q { 7 } else { 13 }).collect();
@@ -690,11 +733,12 @@ impl Prop for C16 {
                 findings.report_all(o?);
             }
         }
-        let total = hs.len() + citems.len() + fitems.len() + ncreate + rl.len() + ncrash as usize + litems.len();
+        let total = hs.len() + citems.len() + fitems.len() + ncreate + rl.len() + ncrash as usize + litems.len() + hs20.len() + f20items.len();
         ev.set("evaluations", json!(total));
-        ev.set("distinct_nontrivial", json!(fitems.len() as u64 + ncrash));
+        ev.set("distinct_nontrivial", json!(fitems.len() as u64 + f20items.len() as u64 + ncrash));
         ev.set("histories", json!(hs.len()));
-        ev.set("fault_positions", json!(fitems.len()));
+        ev.set("fault_positions", json!(fitems.len() + f20items.len()));
+        ev.set("fault_positions_at_depth_20", json!(f20items.len()));
         ev.set("creation_fault_positions", json!(ncreate));
         ev.set("crash_points", json!(ncrash));
         ev.set("reopen_under_held_lock", json!(litems.len()));
@@ -702,7 +746,7 @@ impl Prop for C16 {
         ev.set("compression_available", json!(comp_ok));
         ev.set("max_storage_ops_per_history", json!(ws.iter().max().cloned().unwrap_or(0)));
         ev.set("exhaustive", json!(true));
-        ev.set("rule", json!("histories: every sequence of length <= L (3 quick / 4 thorough) over {set(0,a), set(5,b), delete(0), append(a), write_range(2,[a,b]), batch(0,[b],{0}), batch(remove {0,2}), set_metadata, flush} on a persistent tree of depth 3; (1) each history + flush + drop + reopen must give root, leaves, leaf count and metadata of the ideal tree, and four further operations on the reopened tree must follow the ideal tree; a spread of histories under every storage configuration; (2) for each history the number W of storage operations is measured by a dry run and for every k < W the k-th operation is made to fail: the tree operation in progress must return Err, then flush, drop, reopen must show every acknowledged update outside the failed operation's targets; faults during creation; reopening while the previous instance still holds the storage lock for {0,3,25,120} ms; (3) crash points: for every history up to length 2 (quick) / 3 (thorough) followed by [flush, write] a child process runs it, records each acknowledged operation in a side file and aborts at the k-th storage operation, for every k; after recovery everything acknowledged up to the last acknowledged flush must be there; distinct_nontrivial = distinct (history, k) fault positions + crash points"));
+        ev.set("rule", json!("histories: every sequence of length <= L (3 quick / 4 thorough) over {set(0,a), set(5,b), delete(0), append(a), write_range(2,[a,b]), batch(0,[b],{0}), batch(remove {0,2}), set_metadata, flush} on a persistent tree of depth 3; (1) each history + flush + drop + reopen must give root, leaves, leaf count and metadata of the ideal tree, and four further operations on the reopened tree must follow the ideal tree; a spread of histories under every storage configuration; (2) for each history the number W of storage operations is measured by a dry run and for every k < W the k-th operation is made to fail: the tree operation in progress must return Err, then flush, drop, reopen must show every acknowledged update outside the failed operation's targets; the same at depth 20 for histories of length <= 1 (quick) / 2 (thorough) over positions 0, 2^19, 2^20-1 (about 20 storage writes per operation); faults during creation; reopening while the previous instance still holds the storage lock for {0,3,25,120} ms; (3) crash points: for every history up to length 2 (quick) / 3 (thorough) followed by [flush, write] a child process runs it, records each acknowledged operation in a side file and aborts at the k-th storage operation, for every k; after recovery everything acknowledged up to the last acknowledged flush must be there; distinct_nontrivial = distinct (history, k) fault positions + crash points"));
         if let Some((i, k)) = fitems.get(fitems.len() / 2) {
             ev.sample(case_json("fault", &hs[*i], &base, Some(*k)));
         }
